@@ -3,6 +3,8 @@ From V.gen Require CapsTables.
 From V.Mgr Require Import DialShape Model Caps CapsExt Limits LimitsProofs PeerTable PeerTableProofs.
 From V.Mgr Require Ledger LedgerInv CapsLedger.
 From V.C06 Require Tables TcpReject Compose08.
+From V.C07 Require Model Compose.
+From V.Link Require C07_C06.
 Import ListNotations.
 Open Scope N_scope.
 From V.C06 Require Import Properties.
@@ -227,3 +229,26 @@ Check (C06_manager_source_shape :
   CapsTables.rollback_sites = 2 /\ CapsTables.pending_arms_ok = true).
 Check (C06_transports_reject_shape :
   forall t k, t < 3 -> k < 4 -> In (t, k, 1) CapsTables.transport_shapes).
+Check (C06_C08_xtrace_on_node :
+  forall (i n : nat) (L : limits) (es : list V.C07.Model.nev),
+  (i < n)%nat ->
+  V.C07.Compose.node_env_trace L (V.C07.Model.node_init n) [] [] es ->
+  V.Link.C07_C06.fresh_ids [] es -> V.Link.C07_C06.no_die i es ->
+  Compose08.xtrace L Compose08.x0 (V.Link.C07_C06.node_xevs i L (V.C07.Model.node_init n) es)).
+Check (C06_C08_feasible_on_node :
+  forall (i n : nat) (L : limits) (es : list V.C07.Model.nev) tr ka T0 n0,
+  (i < n)%nat ->
+  V.C07.Compose.node_env_trace L (V.C07.Model.node_init n) [] [] es ->
+  V.Link.C07_C06.fresh_ids [] es -> V.Link.C07_C06.no_die i es ->
+  filter Compose08.is_conn (map snd tr) =
+    Compose08.xproj (V.Link.C07_C06.node_xevs i L (V.C07.Model.node_init n) es) ->
+  Compose08.feasible_rest V.Ts.Model.env0 (V.Ts.Model.init ka T0 n0) tr = true ->
+  V.Ts.Model.feasible 2 V.Ts.Model.env0 (V.Ts.Model.init ka T0 n0) tr = true).
+Check (C06_C08_node_nonvacuous :
+  let L := mkLimits None None [TCP; WS] in
+  let es := [V.C07.Model.NMgr AllocConn; V.C07.Model.NMgr (TrEstablished 5 0 TCP true false); V.C07.Model.NAccept 0;
+             V.C07.Model.NMgr AllocConn; V.C07.Model.NMgr (TrEstablished 5 1 WS true false); V.C07.Model.NAccept 1;
+             V.C07.Model.NProtoDie 1; V.C07.Model.NTask 0 (V.C07.Model.EYamux V.C07.Model.YEof)] in
+  Compose08.xproj (V.Link.C07_C06.node_xevs 0 L (V.C07.Model.node_init 2) es) =
+    [V.Ts.Model.EEst 5 0; V.Ts.Model.EEst 5 1; V.Ts.Model.EClosed 5 0] /\
+  V.Link.C07_C06.fresh_ids [] es /\ V.Link.C07_C06.no_die 0 es).
